@@ -11,6 +11,7 @@ package props
 import (
 	"fmt"
 	"strings"
+	"time"
 
 	"verif/harness/hx"
 )
@@ -187,5 +188,7 @@ func c13Gen(g *hx.Gen) {
 }
 
 func init() {
-	hx.Register(&hx.Prop{ID: "C13", Gen: c13Gen, Exec: c13Exec})
+	// a workload is replayed with an 800 ms watchdog per step when a step looked blocked: on a
+	// loaded machine a long forced schedule can exceed the default 20 s
+	hx.Register(&hx.Prop{ID: "C13", Gen: c13Gen, Exec: c13Exec, Timeout: 90 * time.Second})
 }
